@@ -16,19 +16,27 @@ const dkwDelta = 1e-12
 
 func dkwEps(n int) float64 { return math.Sqrt(math.Log(2/dkwDelta) / (2 * float64(n))) }
 
-func (m *mon) nDraws() int { return m.c.Pick(50000, 200000) }
+func (m *mon) nDraws() int {
+	if m.nilSrc {
+		return m.c.Pick(20000, 50000)
+	}
+	return m.c.Pick(50000, 200000)
+}
 
 // runUVRand draws N variates from every law that has a Rand method and
 // judges support membership, the DKW band against the law's own CDF and
 // 8-sigma bands on the sample mean and variance.
 func (m *mon) runUVRand() {
 	m.runStable()
+	m.uvRandLaws()
+}
+
+func (m *mon) uvRandLaws() {
 	laws := m.uvLaws()
 	N := m.nDraws()
 	vrt.Parallel(len(laws), func(i int) {
 		l := laws[i]
-		src := m.c.RNG("uvrand", i)
-		d := l.mk(src)
+		d := l.mk(m.src("uvrand", i))
 		R, ok := d.(rander)
 		if !ok {
 			return
@@ -38,7 +46,7 @@ func (m *mon) runUVRand() {
 		m.c.LastCase("uvrand " + l.String())
 		F, hasF := d.(cdfer)
 		where := l.String()
-		class := l.pclass
+		class := m.rclass(l.pclass)
 		xs := make([]float64, N)
 		pmsg, panicked := try(func() {
 			for j := range xs {
@@ -131,7 +139,9 @@ func (m *mon) runUVRand() {
 			a.eval("distuv."+l.typ+".CDF|ecdf", N)
 			a.near("rand.dkw", sig(l, "Rand", class, "empirical-CDF-outside-DKW-band"), fmt.Sprintf("%s N=%d sup at x=%g", where, N, at), D, 0, eps)
 		}
-		m.sampleMoments(a, l, d, xs, class)
+		if !m.nilSrc {
+			m.sampleMoments(a, l, d, xs, class)
+		}
 	})
 }
 
